@@ -51,11 +51,22 @@ def spellings(a_ns, b_ns, du):
 def site(case):
     """open finding: after pastify() a future operator's bounds only survive as their difference (once/historically[0, b-a]) and as delays of
     siblings; a non-multiple [a,b] whose width b-a IS a multiple of the period is therefore no longer rejected"""
+    if case.get('mode') == 'dt' and case.get('pastify') and not period_is_unit(case):
+        try:
+            if F.has_op(F.from_json(case['formula']), ('next', 's_next')):
+                return 'C08-pastify-next-nonunit-period'
+        except Exception:
+            pass
     if case.get('mode') == 'reject' and case.get('pastify') and case.get('op') in ('eventually', 'always'):
         a, b = [Fr(x) for x in case['bounds_in_periods']]
         if (b - a).denominator == 1 and b.denominator != 1:
             return 'C08-pastify-nonmultiple-width-ok'
     return None
+
+
+def period_is_unit(case):
+    p, pu = case['period']
+    return p * U[pu] == U[case['unit']]
 
 
 def base_formulas(tier):
@@ -66,7 +77,8 @@ def base_formulas(tier):
         fs += [('once', iv, px), ('historically', iv, F.X), ('eventually', iv, px), ('always', iv, F.X), ('since', iv, px, py),
                ('until', iv, px, py), ('unless', iv, px, py)]
     fs += [('once', (1, 2), ('historically', (0, 1), F.X)), ('eventually', (0, 1), ('historically', (1, 2), px)),
-           ('and', ('eventually', (1, 1), px), ('once', (0, 2), py)), ('always', (0, 2), ('eventually', (1, 2), F.X))]
+           ('and', ('eventually', (1, 1), px), ('once', (0, 2), py)), ('always', (0, 2), ('eventually', (1, 2), F.X)),
+           ('and', ('next', px), py), ('or', ('next', ('eventually', (0, 1), px)), ('once', (0, 1), py))]
     return fs
 
 
@@ -77,7 +89,8 @@ def shards(tier):
         for pi in range(len(PERIODS)):
             out.append({'mode': 'dt', 'fi': fi, 'pi': pi})
     for fi in range(len(fs)):
-        out.append({'mode': 'ct', 'fi': fi})
+        if not F.has_op(fs[fi], ('prev', 's_prev', 'next', 's_next', 'rise', 'fall')):
+            out.append({'mode': 'ct', 'fi': fi})
     for pi in range(len(PERIODS)):
         out.append({'mode': 'reject', 'pi': pi})
     return out
